@@ -72,6 +72,9 @@ func isCriticalFailure(result *notation.ValidationResult) bool {
 func getNonPluginExtendedCriticalAttributes(signerInfo *signature.SignerInfo) []signature.Attribute {
 	var criticalExtendedAttrs []signature.Attribute
 	for _, attr := range signerInfo.SignedAttributes.ExtendedAttributes {
+		if !attr.Critical {
+			continue
+		}
 		attrStrKey, ok := attr.Key.(string)
 		// filter the plugin extended attributes
 		if ok && !slices.Contains(VerificationPluginHeaders, attrStrKey) {
